@@ -206,11 +206,31 @@ func init() {
 	// deadline), lets everything run until idle, and reports whether a timer fired.
 	harnessAPI["vAdvance"] = func(t *Task, fn *ssa.Function, args []Value) Value {
 		p := t.p
+		before := p.now
 		if !p.fireNextTimer(t) {
+			p.advances = append(p.advances, advRec{before, before, false})
 			return p.C.False
 		}
 		t.runUntilIdle()
+		p.advances = append(p.advances, advRec{before, p.now, true})
 		return p.C.True
+	}
+	// vNondetDelay: a symbolic duration (ns); native replays get a value re-solved
+	// into [20 ms, 200 ms] when the path condition allows it.
+	harnessAPI["vNondetDelay"] = func(t *Task, fn *ssa.Function, args []Value) Value {
+		p := t.p
+		v := p.Nondet(p.constStr(args[0], "label"), 64)
+		if p.W.Opts.Concrete == nil {
+			p.delayVars = append(p.delayVars, v)
+		}
+		return v
+	}
+	// vTimeEq: exact equality of two virtual instants (natively: within a tolerance).
+	harnessAPI["vTimeEq"] = func(t *Task, fn *ssa.Function, args []Value) Value {
+		return t.p.C.Eq(args[0].(*Term), args[1].(*Term))
+	}
+	harnessAPI["vTimeLe"] = func(t *Task, fn *ssa.Function, args []Value) Value {
+		return t.p.C.Sle(args[0].(*Term), args[1].(*Term))
 	}
 	harnessAPI["vNow"] = func(t *Task, fn *ssa.Function, args []Value) Value { return t.p.now }
 	harnessAPI["vPendingTimers"] = func(t *Task, fn *ssa.Function, args []Value) Value {
